@@ -226,7 +226,10 @@ pub fn process(
         Operation::Rjmp | Operation::Rcall => {
             let k = op_args[0].get_expr()?;
             let k = k.run(constants)?;
-            let rel = k - (current_address as i64 + 1);
+            let rel = match k.checked_sub(current_address as i64 + 1) {
+                Some(rel) => rel,
+                None => bail!("Relative address out of range (-2048 <= k <= 2047)"),
+            };
             if rel < -2048 || rel > 2047 {
                 bail!("Relative address out of range (-2048 <= k <= 2047)");
             }
@@ -260,7 +263,10 @@ pub fn process(
 
             let k = op_args[index].get_expr()?;
             let k = k.run(constants)?;
-            let rel = k - (current_address as i64 + 1);
+            let rel = match k.checked_sub(current_address as i64 + 1) {
+                Some(rel) => rel,
+                None => bail!("Relative address out of range (-64 <= k <= 63)"),
+            };
             if rel < -64 || rel > 63 {
                 bail!("Relative address out of range (-64 <= k <= 63)");
             }
